@@ -1,3 +1,89 @@
-From Cocls Require Import Base StorageDefs.
-Theorem stub : True. Proof. exact I. Qed.
-Print Assumptions stub.
+(* Properties_C19.v — C19: coroutine storage policies give every frame exclusive, correctly freed memory.
+   Only statements; every proof is `exact <lemma of StorageProofs>`.
+   Quantification: every policy, every history of Init/Create/Finish/Destroy (any length, any frame sizes, any
+   parameters); for reusable_storage_mtsafe additionally every number of threads, every program per thread and every
+   schedule (mt_reach = closure of the initial state under steps of arbitrary threads).
+   `contract_ok pol l` is the documented usage contract of the single-block policies (reusable_storage,
+   placement_alloc, reusable_buffer_storage: one live frame at a time, placement memory large enough); it holds
+   for every history of default / mtsafe / stack storage (c19_contract_free). *)
+From Cocls Require Import Base BaseProofs StorageDefs StorageProofs.
+Local Open Scope Z_scope.
+
+Theorem c19_contract_free : forall pol l, contract_free pol = true -> contract_ok pol l = true.
+Proof. intros pol l H. exact (contract_free_ok pol H l (prm0 pol) core0 eq_refl). Qed.
+Print Assumptions c19_contract_free.
+
+(* exclusive: two simultaneously live frames never sit in the same block *)
+Theorem c19_exclusive : forall pol l i j fi fj, contract_ok pol l = true ->
+  fget (frs (final_u pol l)) i = Some fi -> fget (frs (final_u pol l)) j = Some fj -> i <> j ->
+  f_blk fi <> f_blk fj.
+Proof. exact exclusive. Qed.
+Print Assumptions c19_exclusive.
+
+(* size + lifetime: the block under a live frame is still allocated (or is the caller's area) and offers
+   request + extra object + the policy's trailer bytes *)
+Theorem c19_size_valid : forall pol l i f, contract_ok pol l = true -> fget (frs (final_u pol l)) i = Some f ->
+  0 < f_n f /\ f_n f + trailer pol <= f_room f /\
+  match f_blk f with
+  | BHeap b => In (b, f_room f) (h_live (hp (final_u pol l)))
+  | BOwn _ => pol = PStk \/ pol = PPlc
+  | BNull => False
+  end.
+Proof. exact valid_sized. Qed.
+Print Assumptions c19_size_valid.
+
+(* fallback freed exactly once: no delete of a non-live block ever, live heap blocks = the storage's block + one per
+   live frame that owns a heap block, and after the storage is destroyed every allocation has been released *)
+Theorem c19_fallback_freed_once : forall pol l, contract_ok pol l = true ->
+  let c := final_u pol l in
+  h_bad (hp c) = 0 /\ h_allocs (hp c) - h_frees (hp c) = zlen (h_live (hp c)) /\
+  (c_up c = true -> zlen (h_live (hp c)) = nsown pol (st c) + sumw (owns pol) (frs c)) /\
+  (c_up c = false -> h_live (hp c) = [] /\ h_allocs (hp c) = h_frees (hp c)).
+Proof. exact freed_once. Qed.
+Print Assumptions c19_fallback_freed_once.
+
+(* thread-safe variant, every interleaving *)
+Theorem c19_mt_exclusive : forall ops s i j fi fj, mt_reach ops s ->
+  fget (frs (c_core s)) i = Some fi -> fget (frs (c_core s)) j = Some fj -> i <> j -> f_blk fi <> f_blk fj.
+Proof. exact mt_exclusive. Qed.
+Print Assumptions c19_mt_exclusive.
+
+Theorem c19_mt_one_holder : forall ops s, mt_reach ops s ->
+  nwon (c_thr s) + sumw trw (frs (c_core s)) = b2z (s_busy (st (c_core s))) /\
+  forall i f, In (i, f) (frs (c_core s)) ->
+    if f_tr f then f_blk f = optblk (s_ptr (st (c_core s)))
+    else exists b, f_blk f = BHeap b /\ s_ptr (st (c_core s)) <> Some b.
+Proof. exact mt_one_holder. Qed.
+Print Assumptions c19_mt_one_holder.
+
+Theorem c19_mt_size_valid : forall ops s i f, mt_reach ops s -> In (i, f) (frs (c_core s)) ->
+  0 < f_n f /\ f_n f + ptr_sz <= f_room f /\ exists b, f_blk f = BHeap b /\ In (b, f_room f) (h_live (hp (c_core s))).
+Proof. exact mt_valid_sized. Qed.
+Print Assumptions c19_mt_size_valid.
+
+Theorem c19_mt_freed_once : forall ops s, mt_reach ops s ->
+  let h := hp (c_core s) in
+  h_bad h = 0 /\ h_allocs h - h_frees h = zlen (h_live h) /\
+  zlen (h_live h) = nsown PMts (st (c_core s)) + sumw (owns PMts) (frs (c_core s)) /\
+  (frs (c_core s) = [] -> let h1 := hp (destroy pm (c_core s)) in h_live h1 = [] /\ h_allocs h1 = h_frees h1 /\ h_bad h1 = 0).
+Proof. exact mt_freed_once. Qed.
+Print Assumptions c19_mt_freed_once.
+
+(* the state the wire-level runner ends in is one of those states, whatever the schedule *)
+Theorem c19_mt_run_covered : forall ops, mt_reach ops (fst (mt_final ops)).
+Proof. exact mt_final_reach. Qed.
+Print Assumptions c19_mt_run_covered.
+
+(* non-vacuity: a reachable mtsafe state with three live frames (one in the shared block, two fallbacks) *)
+Example c19_nonvacuous :
+  let l := [OInit 24 0 0; OCreate 0 120; OCreate 1 104; OFinish 0; OCreate 2 136; OCreate 3 96] in
+  contract_ok PMts l = true /\ length (frs (final_u PMts l)) = 3%nat /\
+  sumw trw (frs (final_u PMts l)) = 1 /\ h_allocs (hp (final_u PMts l)) = 4 /\ h_frees (hp (final_u PMts l)) = 1.
+Proof. vm_compute. repeat split; reflexivity. Qed.
+
+(* the contract is necessary: without it reusable_storage frees the block under a live frame *)
+Example c19_contract_needed :
+  let l := [OInit 0 0 0; OCreate 0 104; OCreate 1 296] in
+  contract_ok PReu l = false /\
+  exists f, fget (frs (final_u PReu l)) 0 = Some f /\ f_blk f = BHeap 0 /\ hmem 0 (h_live (hp (final_u PReu l))) = false.
+Proof. vm_compute. split; [reflexivity|]. eexists. repeat split; reflexivity. Qed.
